@@ -137,6 +137,14 @@ static hx_plan_t *cur_plan;
 static uint64_t cur_seed;
 static int in_child;
 static int in_replay_mode;
+static char kn[HX_MAX_KNOBS][64];
+static long kv[HX_MAX_KNOBS];
+static int nk_global;
+long hx_cli_knob(const char *name, long dflt)
+{
+    for (int i = 0; i < nk_global; i++) if (!strcmp(kn[i], name)) return kv[i];
+    return dflt;
+}
 uint64_t hx_current_seed(void) { return cur_seed; }
 int hx_in_replay(void) { return in_replay_mode; }
 static int child_fd = -1;
@@ -359,8 +367,6 @@ int hx_main(int argc, char **argv, const hx_harness_t *h)
     int want_fp = 0, samples = 2, keep_going = 0, have_seed = 0;
     const char *planf = NULL, *tracef = NULL;
     long print_plan = -1;
-    static char kn[HX_MAX_KNOBS][64];
-    static long kv[HX_MAX_KNOBS];
     int nk = 0;
     for (int i = 1; i < argc; i++) {
         if (!strcmp(argv[i], "--seeds") && i + 2 < argc) { base = strtoull(argv[i + 1], 0, 0); count = strtoull(argv[i + 2], 0, 0); i += 2; }
@@ -382,6 +388,7 @@ int hx_main(int argc, char **argv, const hx_harness_t *h)
             kv[nk++] = strtol(eq + 1, 0, 0);
         } else usage();
     }
+    nk_global = nk;
     mkdir(outdir, 0777);
     sim_set_abort_handler(on_abort);
     if (!h->fork_per_run) install_crash_handlers();
